@@ -1,4 +1,7 @@
 import SimpleDnsModel.Text
+import SimpleDnsModel.Model.Match
+import SimpleDnsModel.Spec.NameDecode
+import SimpleDnsModel.Spec.Rfc1035Header
 open Dns Dns.Text
 
 def words (line : String) : List String :=
@@ -13,6 +16,42 @@ def answer (ts : List String) : String :=
     match bytesOfHex hex, pos.toNat? with
     | some d, some p => showOut showNamePos (Name.parse d p)
     | _, _ => "bad-op"
+  | ["spec.name", hex, pos] =>
+    match bytesOfHex hex, pos.toNat? with
+    | some d, some p =>
+      match Spec.nameAt d p with
+      | .ok n e => "ok " ++ showName n ++ " " ++ toString e
+      | .bad r => "bad " ++ r
+    | _, _ => "bad-op"
+  | ["match.qtype", t, q] =>
+    match t.toNat?, q.toNat? with
+    | some t, some q =>
+      match QTYPE.ofCode q with
+      | .ok q => showBool (matchQType (TYPE.ofCode t) q)
+      | _ => "bad-op"
+    | _, _ => "bad-op"
+  | ["match.qclass", c, q] =>
+    match c.toNat?, q.toNat? with
+    | some c, some q =>
+      match CLASS.ofCode c, QCLASS.ofCode q with
+      | .ok c, .ok q => showBool (matchQClass c q)
+      | _, _ => "bad-op"
+    | _, _ => "bad-op"
+  | ["flags", f, a, b] =>
+    match a.toNat?, b.toNat? with
+    | some a, some b =>
+      let h : Header := { id := 0, opcode := .StandardQuery, rcode := .NoError, flags := a, opt := none }
+      match f with
+      | "set" => toString (h.setFlags b).flags
+      | "remove" => toString (h.removeFlags b).flags
+      | "has" => showBool (h.hasFlags b)
+      | _ => "bad-op"
+    | _, _ => "bad-op"
+  | ["spec.hdr", w] =>
+    match w.toNat? with
+    | some w => String.intercalate " " ([Spec.QR w, Spec.OPCODE w, Spec.AA w, Spec.TC w, Spec.RD w,
+        Spec.RA w, Spec.Z w, Spec.AD w, Spec.CD w, Spec.RCODE w].map toString)
+    | none => "bad-op"
   | ["hdr.parse", hex] =>
     match bytesOfHex hex with
     | some d => showOut showHeader (Header.parse d)
